@@ -364,6 +364,62 @@ fn replay_json(seed: u64, program: &Program, cfg: &Config, signature: &str, deta
   })
 }
 
+/// Shrinks the program of a violation (synthetic programs only: their modules are stored verbatim
+/// in the replay): drop whole modules, then blank-line separated blocks, then single lines, keeping
+/// a candidate when reference and configuration still disagree with the same signature.
+fn minimise_program(program: &Program, cfg: &Config, signature: &str) -> Program {
+  if program.kind == ProgramKind::AllTests || program.kind == ProgramKind::SingleTest {
+    return program.clone();
+  }
+  let start = std::time::Instant::now();
+  let budget = std::time::Duration::from_secs(90);
+  let fails = |p: &Program| -> bool {
+    let r0 = simcore::runner::run_one(RUN_STACK, || execute(p, &Config::reference(), "minp-ref"));
+    let r1 = simcore::runner::run_one(RUN_STACK, || execute(p, cfg, "minp"));
+    compare(&r0.outcome, &r1.outcome).map(|(s, _)| s == signature).unwrap_or(false)
+  };
+  let mut cur = program.clone();
+  // modules
+  for m in program.sources.keys() {
+    if start.elapsed() > budget || cur.entry_points.contains(m) || !cur.overrides.contains(m) {
+      continue;
+    }
+    let mut cand = cur.clone();
+    cand.sources.remove(m);
+    cand.overrides.remove(m);
+    if fails(&cand) {
+      cur = cand;
+    }
+  }
+  // blocks, then lines
+  for sep in ["\n\n", "\n"] {
+    let mods: Vec<_> = cur.overrides.iter().cloned().collect();
+    for m in mods {
+      let mut i = 0;
+      loop {
+        if start.elapsed() > budget {
+          return cur;
+        }
+        let text = cur.sources[&m].clone();
+        let parts: Vec<&str> = text.split(sep).collect();
+        if i >= parts.len() || parts.len() <= 1 {
+          break;
+        }
+        let mut kept = parts.clone();
+        kept.remove(i);
+        let mut cand = cur.clone();
+        cand.sources.insert(m.clone(), kept.join(sep));
+        if fails(&cand) {
+          cur = cand;
+        } else {
+          i += 1;
+        }
+      }
+    }
+  }
+  cur
+}
+
 fn minimise(program: &Program, cfg: &Config, signature: &str, reference: &Outcome) -> Config {
   let fails = |c: &Config| -> bool {
     let r = simcore::runner::run_one(RUN_STACK, || execute(program, c, "min"));
@@ -616,11 +672,12 @@ fn main() {
         None => cfg.clone(),
       }
     };
+    let small_program = if known.lookup(PROPERTY, &sig).is_some() { program.clone() } else { minimise_program(program, &small, &sig) };
     violations.push(Violation {
       property: PROPERTY.into(),
       signature: sig.clone(),
       description: format!("program {}: {detail}", program.name),
-      replay: replay_json(seed, program, &small, &sig, &detail),
+      replay: replay_json(seed, &small_program, &small, &sig, &detail),
     });
   }
   let outcome = simcore::report::conclude(PROPERTY, seed, violations, &[]);
